@@ -15,6 +15,7 @@
 -/
 import Lcapy.Proofs.Laplace
 import Lcapy.Proofs.LaplaceEntries
+import Lcapy.Proofs.LaplaceUndef
 import Lcapy.Proofs.LaplaceAnchor
 namespace Lcapy.C09
 open Lcapy.Laplace
@@ -105,26 +106,28 @@ theorem function_entry_rect (env : Env K) (hE : IsExp env.E) (a : K) (ha : 0 < a
     specValue env (.prod 1 [.fn .rect a 0]) = some (Gen.rectEntry env.E env.s a) := by
   rw [spec_rect env hE a ha hs]
   simp only [Gen.rectEntry, ofN_eq, pw_eq]; push_cast
-  rw [show (-env.s / (2 * a)) = -(env.s * (1 / (2 * a))) by field_simp]
+  try rw [show (-env.s / (2 * a)) = -(env.s * (1 / (2 * a))) by field_simp]
+  try (congr 1; first | (field_simp; ring1) | field_simp | ring1)
 
 theorem function_entry_ramp (env : Env K) (hE : IsExp env.E) (a : K) (ha : 0 < a) (hs : env.s ≠ 0) :
     specValue env (.prod 1 [.fn .ramp a 0]) = some (Gen.rampEntry env.E env.s a) := by
   rw [spec_ramp env hE a ha hs]
   simp only [Gen.rampEntry, ofN_eq, pw_eq]
+  try (congr 1; first | (field_simp; ring1) | field_simp | ring1)
 
 theorem function_entry_tri (env : Env K) (hE : IsExp env.E) (a : K) (ha : 0 < a) (hs : env.s ≠ 0) :
     specValue env (.prod 1 [.fn .tri a 0]) = some (Gen.triEntry env.E env.s a) := by
   rw [spec_tri env hE a ha hs]
   simp only [Gen.triEntry, ofN_eq, pw_eq]; push_cast
-  rw [show (-env.s / a) = -(env.s * (1 / a)) by field_simp]
-  congr 1; field_simp
+  try rw [show (-env.s / a) = -(env.s * (1 / a)) by field_simp]
+  try (congr 1; first | (field_simp; ring1) | field_simp | ring1)
 
 theorem function_entry_rampstep (env : Env K) (hE : IsExp env.E) (a : K) (ha : 0 < a) (hs : env.s ≠ 0) :
     specValue env (.prod 1 [.fn .rampstep a 0]) = some (Gen.rampstepEntry env.E env.s a) := by
   rw [spec_rampstep env hE a ha hs]
   simp only [Gen.rampstepEntry, ofN_eq, pw_eq]; push_cast
-  rw [show (-env.s / a) = -(env.s * (1 / a)) by field_simp]
-  congr 1; field_simp
+  try rw [show (-env.s / a) = -(env.s * (1 / a)) by field_simp]
+  try (congr 1; first | (field_simp; ring1) | field_simp | ring1)
 
 /-- the unit entries themselves, e.g. `L{tri(t)} = 1/s − (1 − e^{−s})/s²`, and the similarity step -/
 theorem function_entries_from_unit (env : Env K) (hE : IsExp env.E) (a : K) (ha : 0 < a) (hs : env.s ≠ 0) :
@@ -133,6 +136,37 @@ theorem function_entries_from_unit (env : Env K) (hE : IsExp env.E) (a : K) (ha 
   rw [spec_tri env hE a ha hs]
   rw [show -(env.s / a * 1) = -(env.s * (1 / a)) by field_simp]
   congr 1; field_simp
+
+/-- `func`: `x(a t + b)` (a > 0, delay −b/a ≥ 0) ↦ `X(s/a)/a · e^{s b/a}` — for EVERY causal signal put for `x` -/
+theorem func_entry (env : Env K) (hE : IsExp env.E) (c a b : K) (ha : a ≠ 0) (hb : b ≤ 0) :
+    specValue env (.undef c a b) = (lcapyTerm env (.undef c a b)).2 := func_entry' env hE c a b ha hb
+
+/-- `x(t)·e^{at}` ↦ `X(s − a)` -/
+theorem func_exp_entry (env : Env K) (hE : IsExp env.E) (c a : K) :
+    specValue env (.undefExp c a) = (lcapyTerm env (.undefExp c a)).2 := func_exp_entry' env hE c a
+
+/-- `derivative_undef` with initial conditions: `s^n X(s) − Σ_{m<n} s^{n−m−1} x^{(m)}(0⁻)`, any order `n`,
+    any whole-axis signal put for `x` -/
+theorem deriv_undef_entry (env : Env K) (hE : IsExp env.E) (hx : NonPole env.xsig.post env.s) (hz : env.zic = false)
+    (c : K) (n : Nat) :
+    specValue env (.dundef c n) = (lcapyTerm env (.dundef c n)).2 := deriv_undef_entry' env hE hx hz c n
+
+/-- … and with `zero_initial_conditions=True`: `s^n X(s)`, right when `x` vanishes before `t = 0` -/
+theorem deriv_undef_entry_zic (env : Env K) (hx : NonPole env.xsig.post env.s) (hz : env.zic = true)
+    (hpre : env.xsig.pre = []) (c : K) (n : Nat) :
+    specValue env (.dundef c n) = (lcapyTerm env (.dundef c n)).2 := deriv_undef_entry_zic' env hx hz hpre c n
+
+/-- `integral`: running integral ↦ `X(s)/s`; convolutions ↦ products -/
+theorem integral_entry (env : Env K) (hE : IsExp env.E) (c : K) (hs : env.s ≠ 0) (hx : NonPole env.xsig.post env.s) :
+    specValue env (.iundef c) = (lcapyTerm env (.iundef c)).2 := integral_entry' env hE c hs hx
+
+theorem conv_entry (env : Env K) (hE : IsExp env.E) (c : K)
+    (hx : NonPole env.xsig.post env.s) (hy : NonPole env.ysig env.s) :
+    specValue env (.convXY c) = (lcapyTerm env (.convXY c)).2 := conv_entry' env hE c hx hy
+
+theorem conv_exp_entry (env : Env K) (hE : IsExp env.E) (c a : K) (ha : env.s - a ≠ 0)
+    (hx : NonPole env.xsig.post env.s) :
+    specValue env (.convExpX c a) = (lcapyTerm env (.convExpX c a)).2 := conv_exp_entry' env hE c a ha hx
 
 end B
 
